@@ -44,6 +44,46 @@ def rand_ops(labels, clifford=False):
     return ops
 
 
+def pauli_word(word, ws):
+    return qp.prod(*[getattr(qp, "Pauli" + ch)(w) for ch, w in zip(word, ws)]) if len(ws) > 1 else getattr(qp, "Pauli" + word[0])(ws[0])
+
+
+def lincomb(kind, style, terms):
+    """measurement of sum_i c_i P_i (terms: (coefficient, letters, wires), the factors of each word kept in the listed order);
+    style: operator arithmetic (Sum of SProd), qp.Hamiltonian / LinearCombination, qp.dot"""
+    cs, words = [t[0] for t in terms], [pauli_word(t[1], t[2]) for t in terms]
+    if style == "sum":
+        o = qp.sum(*[w if c == 1.0 else qp.s_prod(c, w) for c, w in zip(cs, words)])
+    elif style == "hamiltonian":
+        o = qp.Hamiltonian(cs, words)
+    else:
+        o = qp.dot(cs, words)
+    m = qp.expval(o) if kind == "expval_sum" else qp.var(o)
+    return m, {"kind": kind, "style": style, "terms": [{"coeff": c, "word": list(w), "wires": list(ws)} for c, w, ws in terms]}
+
+
+def rand_lincomb(labels):
+    """random Sum / LinearCombination of Pauli words whose factors are listed in independent random wire orders"""
+    nw, terms, seen = len(labels), [], set()
+    for _ in range(rng.randint(2, 3)):
+        ws = rng.sample(labels, rng.randint(1, min(3, nw)))
+        word = [rng.choice("XYZ") for _ in ws]
+        key = tuple(sorted(zip(map(str, ws), word)))
+        if key in seen:
+            continue
+        seen.add(key)
+        terms.append((rng.choice([1.0, 0.5, -1.5, 0.25, -0.75, 2.0]), word, ws))
+    if nw >= 2 and rng.random() < 0.6:
+        # a term on the wires of the first multi-wire term in the reverse factor order
+        multi = [t for t in terms if len(t[2]) > 1]
+        if multi:
+            ws = multi[0][2][::-1]
+            word = [rng.choice("XYZ") for _ in ws]
+            if tuple(sorted(zip(map(str, ws), word))) not in seen:
+                terms.append((rng.choice([0.5, -1.25, 0.75]), word, ws))
+    return lincomb("expval_sum" if rng.random() < 0.7 else "var_sum", rng.choice(["sum", "hamiltonian", "dot"]), terms)
+
+
 def jsonable(x):
     a = np.asarray(x)
     if np.iscomplexobj(a):
@@ -87,13 +127,29 @@ for ci in range(ncirc):
         nw, labels = 3, ["b", 3, "a"]
         A1, A2 = 2 * _m.atan2(4, 3), 2 * _m.atan2(3, 4)
         ops = [qp.Hadamard("b"), qp.RY(A1, 3), qp.PauliRot(A1, "XYZ", wires=[3, "a", "b"]), qp.RX(A2, "a"),
-               qp.ctrl(qp.PhaseShift(A2, "b"), control=[3, "a"]), qp.MultiRZ(A1, wires=["a", "b", 3])]
+               qp.ctrl(qp.PhaseShift(A2, "b"), control=[3, "a"]), qp.MultiRZ(A1, wires=["a", "b", 3]),
+               # asymmetric diagonal gates on descending device wires (devices with an eigenvalue kernel must keep the axis order)
+               qp.RY(A2, "b"), qp.CRZ(A1, wires=["a", "b"]), qp.RX(A1, 3),
+               qp.DiagonalQubitUnitary(np.array([1, 1j, 0.6 + 0.8j, -1]), wires=["a", 3]), qp.RY(A1, "a"), qp.CRZ(A2, wires=[3, "b"])]
+    if ci < 2 * len(DEVICES) and clifford:
+        # fixed corpus circuits for default.clifford (entangled stabilizer states on string / unordered device labels)
+        if ci < len(DEVICES):
+            nw, labels = 3, ["b", 3, "a"]
+            ops = [qp.Hadamard("b"), qp.S("b"), qp.CNOT(["b", "a"]), qp.Hadamard(3), qp.CZ([3, "a"]), qp.SX("a"), qp.ISWAP(["b", 3]),
+                   qp.adjoint(qp.S(3)), qp.Hadamard("a"), qp.S("a")]
+        else:
+            nw, labels = 3, [2, 0, 1]
+            ops = [qp.Hadamard(2), qp.CNOT([2, 0]), qp.S(0), qp.Hadamard(1), qp.CZ([1, 2]), qp.SX(0), qp.CY([1, 0]), qp.S(2), qp.SWAP([0, 1]), qp.Hadamard(0)]
     ms, mdesc = [], []
     for _ in range(rng.randint(1, 2)):
         r = rng.random()
         if r < 0.4 and not devname.startswith("default.tensor"):
             k = rng.randint(1, nw); ws = rng.sample(labels, k)
             ms.append(qp.probs(wires=ws)); mdesc.append({"kind": "probs", "wires": ws})
+        elif clifford and rng.random() < 0.5:
+            # default.clifford converts Sum / LinearCombination observables to Pauli strings itself (letters must stay paired with their wires)
+            m_, d_ = rand_lincomb(labels)
+            ms.append(m_); mdesc.append(d_)
         else:
             k = rng.randint(1, min(2, nw)); ws = rng.sample(labels, k)
             word = [rng.choice("XYZ") for _ in ws]
@@ -108,6 +164,27 @@ for ci in range(ncirc):
         for word, ws in ((["Z"], ["b"]), (["X"], [3]), (["Y"], ["a"]), (["Y", "Z"], ["a", "b"]), (["X", "X"], [3, "a"])):
             o = qp.prod(*[getattr(qp, "Pauli" + ch)(w) for ch, w in zip(word, ws)]) if len(ws) > 1 else getattr(qp, "Pauli" + word[0])(ws[0])
             ms.append(qp.expval(o)); mdesc.append({"kind": "expval", "word": word, "wires": ws})
+    if ci < 2 * len(DEVICES) and clifford:
+        # corpus measurements: sums whose terms list their factors in a wire order different from the first-seen wire order of the
+        # whole observable (every word below has expectation +-1 in the corpus state, so no term is blind), next to a plain word
+        # and probabilities
+        if ci < len(DEVICES):
+            t1 = [(1.0, "XY", [3, "a"]), (0.5, "ZY", ["a", 3])]
+            t2 = [(0.7, "YXY", ["b", 3, "a"]), (-1.2, "XZ", ["a", 3]), (0.4, "ZYY", ["a", "b", 3])]
+            t3 = [(0.5, "YX", ["a", 3]), (-1.5, "YZ", [3, "a"]), (0.25, "Y", ["b"]), (2.0, "XYZ", ["a", "b", 3])]
+            word, ws, pw = ["X", "Z"], ["a", 3], ["a", "b"]
+        else:
+            t1 = [(1.0, "YZ", [2, 1]), (0.5, "YZ", [1, 2])]
+            t2 = [(0.3, "XZX", [2, 0, 1]), (-0.8, "ZZY", [1, 0, 2]), (1.1, "YZ", [1, 2]), (0.6, "Z", [0])]
+            t3 = [(-0.75, "XX", [1, 2]), (2.0, "ZY", [2, 1]), (0.25, "ZYZ", [0, 1, 2])]
+            word, ws, pw = ["Y", "Z"], [2, 1], [1, 2]
+        ms, mdesc = [], []
+        for kind, style, terms in (("expval_sum", "sum", t1), ("expval_sum", "hamiltonian", t2), ("expval_sum", "dot", t3), ("var_sum", "sum", t1),
+                                   ("var_sum", "hamiltonian", t3), ("expval_sum", "hamiltonian", t1), ("expval_sum", "sum", t2)):
+            m_, d_ = lincomb(kind, style, [(c, list(w), x) for c, w, x in terms])
+            ms.append(m_); mdesc.append(d_)
+        ms.append(qp.expval(pauli_word(word, ws))); mdesc.append({"kind": "expval", "word": word, "wires": ws})
+        ms.append(qp.probs(wires=pw)); mdesc.append({"kind": "probs", "wires": pw})
     run = {"labels": labels, "dev_wires": labels, "device": devname, "ops": [repr(o) for o in ops], "meas": mdesc, "status": "ok", "n": nw}
     runs.append(run)
     pending.append((run, ops, labels))
